@@ -5,7 +5,7 @@ import pvlib
 from pvlib import Check, run_tlc, run_cases, payloads, ndjson
 
 PRELUDE = ("P := Int.bear; Q := Str.bear; R := Float.bear; P2 := Int.bear({tag: 2}); PA := Arr.bear; P3 := Int.bear; Q3 := Str.bear; R3 := Float.bear; P4 := Int.bear({tag: 2}); "
-           "o1 := {a: 1}; E1 := 1.try.nosuch; E2 := \"s\".try.nosuch2; f1 := {|x| x}; ")
+           "o1 := {a: 1}; E1 := 1.try.nosuch; E2 := \"s\".try.nosuch2; f1 := {|x| x}; fx := 1.5; fy := 2.0; ix := 2; sx := true; ")
 
 # (source, family, python value for classification, proto tag)
 POOL = [
@@ -52,6 +52,9 @@ POOL = [
     ('("" + "a")', "str", "a", "Str"), ('"A".lc', "str", "a", "Str"), ('["a", "b"].join("")', "str", "ab", "Str"), ("(0 + 1)", "int", 1, "Int"), ("(3 - 1)", "int", 2, "Int"),
     ("(0.5 + 1.0)", "float", 1.5, "Float"), ("(4.0 / 2.0)", "float", 2.0, "Float"), ('"1.5".F', "float", 1.5, "Float"), ('"2".I', "int", 2, "Int"), ("[1, 2].len", "int", 2, "Int"),
     ("([1] + [2])", "none", None, ""), ("(1:3).A", "none", None, ""), ("JSON.dec(`[1, 2]`)", "none", None, ""), ("JSON.dec(`{\"a\": 1}`)", "none", None, ""), ("[['a, 1]].O", "none", None, ""),
+    # floats one unit in the last place apart (computed and written), and values made by a prefix operator applied to a VARIABLE (the result is built from the operand)
+    ("0.3", "float", 0.3, "Float"), ("(0.1 + 0.2)", "float", 0.1 + 0.2, "Float"), ("(0.3 - 0.2)", "float", 0.3 - 0.2, "Float"), ("1.0000000000000002", "float", 1.0000000000000002, "Float"),
+    ("1.0000000000000004", "float", 1.0000000000000004, "Float"), ("(-fx)", "float", -1.5, "Float"), ("(-fy)", "float", -2.0, "Float"), ("(-ix)", "int", -2, "Int"), ("(-sx)", "int", -1, "child-of-true"),
     ("[[1, 2]].M", "none", None, ""), ("{a: 1}.items.O", "none", None, ""), ("%{1: 2}.items.M", "none", None, ""), ("JSON.dec(`null`)", "none", None, ""), ("JSON.dec(`true`)", "int", 1, "bool"),
 ]
 OPS = [("eq", "=="), ("ne", "!="), ("lt", "<"), ("le", "<="), ("gt", ">"), ("ge", ">="), ("cmp", "<=>")]
